@@ -257,10 +257,11 @@ Definition check_property_wrapper (r : clean_result) : res unit :=
 (* The cleaning of one slot as the rest of the model sees it.  Two instances:
    - `clean_any`: the set {Ok, InvalidValueError}, used when the model is evaluated;
    - `clean_via cl`: the wrapper applied to an arbitrary black box `cl`, used in the theorems. *)
-Definition cleaner := ustring -> jvalue -> M unit.
-Definition clean_any : cleaner := fun _ _ => may [K_InvalidValueError].
-Definition blackbox := ustring -> jvalue -> clean_result.
-Definition clean_via (cl : blackbox) : cleaner := fun n v => lift (check_property_wrapper (cl n v)).
+(* the first argument is the `interoperability` flag _check_property hands to clean() of certain property types *)
+Definition cleaner := bool -> ustring -> jvalue -> M unit.
+Definition clean_any : cleaner := fun _ _ _ => may [K_InvalidValueError].
+Definition blackbox := bool -> ustring -> jvalue -> clean_result.
+Definition clean_via (cl : blackbox) : cleaner := fun io n v => lift (check_property_wrapper (cl io n v)).
 
 (* ------------------------------------------------------------------ *)
 (* 5. typed dynamic operations on raw JSON                                *)
@@ -344,6 +345,9 @@ Inductive prehook :=
 | PreAliases (names : list ustring)   (* named parameters copied back only when truthy:
                                          StatementMarking(statement), Relationship(source_ref, relationship_type,
                                          target_ref), Sighting(sighting_of_ref) *)
+| PreCustom (with_ext : bool) (* custom.py _CustomObject/_CustomObservable/_CustomMarking/_CustomExtension.__init__ around a user
+                                 class WITHOUT its own __init__: base __init__, then (with_extension set, not 2.0) the
+                                 registered extension class is instantiated without arguments and stored *)
 | PreNoop                    (* Bundle (positional args), Indicator 2.1 (pattern_version default), ObservedData 2.1 (warning) *)
 | PreUnknown.                (* an __init__ override the model does not know: may raise anything *)
 
@@ -448,14 +452,17 @@ Fixpoint dict_of_pairs (l : list jvalue) (acc : list (ustring * jvalue)) (nonstr
   end.
 
 (* value, and whether the dict has a key that is not a string (then `**d` is a TypeError) *)
+Definition decode_text (V : variant) (tr : textres) : M (jvalue * bool) :=
+  match tr with
+  | TDecoded j => ret (j, false)
+  | TBad => fail K_JSONDecodeError
+  | TTooDeep => guard V S_json_depth K_RecursionError (fail K_ValueError)
+  end.
+
 Definition get_dict (V : variant) (dec : decoder) (x : jvalue) : M (jvalue * bool) :=
   match x with
   | JObj _ => ret (x, false)
-  | JStr s => match dec s with
-              | TDecoded j => ret (j, false)
-              | TBad => fail K_JSONDecodeError
-              | TTooDeep => guard V S_json_depth K_RecursionError (fail K_ValueError)
-              end
+  | JStr s => decode_text V (dec s)
   | JArr l => match dict_of_pairs l [] false with
               | Some (m, ns) => ret (JObj m, ns)
               | None => fail K_ValueError
@@ -622,10 +629,10 @@ Section Init.
     end.
 
   (* _check_property for one defined slot; returns whether the slot is set afterwards *)
-  Definition check_slot (kind : bkind) (vr : jvalue) (s : slot) (val : option jvalue) : M bool :=
+  Definition check_slot (io : bool) (kind : bkind) (vr : jvalue) (s : slot) (val : option jvalue) : M bool :=
     match val with
     | Some v =>
-        clean (s_name s) v ;;;
+        clean io (s_name s) v ;;;
         match kind, s_ref s with
         | BObs20, RefOne | BObs20, RefMany | BObs21, RefOne | BObs21, RefMany => check_ref vr ;;; ret true
         | _, _ => ret true
@@ -633,7 +640,7 @@ Section Init.
     | None =>
         if s_default s then
           (* the default value goes through clean() as well *)
-          clean (s_name s) JNull ;;;
+          clean io (s_name s) JNull ;;;
           match kind, s_ref s with
           | BObs20, RefOne | BObs20, RefMany | BObs21, RefOne | BObs21, RefMany => check_ref vr ;;; ret true
           | _, _ => ret true
@@ -642,7 +649,7 @@ Section Init.
     end.
 
   (* the property loop: names in order; `present` accumulates the keys of setting_kwargs *)
-  Fixpoint prop_loop (kind : bkind) (vr : jvalue) (defined : list slot) (assigned : ustring -> option jvalue)
+  Fixpoint prop_loop (io : bool) (kind : bkind) (vr : jvalue) (defined : list slot) (assigned : ustring -> option jvalue)
            (order : list ustring) (present : list ustring) : M (list ustring) :=
     match order with
     | [] => ret present
@@ -650,10 +657,10 @@ Section Init.
         let val := match assigned n with Some v => if kept v then Some v else None | None => None end in
         match find_slot n defined with
         | Some s =>
-            b <- check_slot kind vr s val ;;
-            prop_loop kind vr defined assigned rest (if b then (present ++ [n])%list else present)
+            b <- check_slot io kind vr s val ;;
+            prop_loop io kind vr defined assigned rest (if b then (present ++ [n])%list else present)
         | None =>
-            prop_loop kind vr defined assigned rest (match val with Some _ => (present ++ [n])%list | None => present end)
+            prop_loop io kind vr defined assigned rest (match val with Some _ => (present ++ [n])%list | None => present end)
         end
     end.
 
@@ -744,7 +751,7 @@ Section Init.
     end.
 
   (* _STIXBase.__init__(allow_custom, **kw) for class c; vr = the _valid_refs popped by _Observable.__init__ *)
-  Definition base_init (c : cls) (ac : bool) (kw : list (ustring * jvalue)) (vr : jvalue) : M unit :=
+  Definition base_init (c : cls) (ac io : bool) (kw : list (ustring * jvalue)) (vr : jvalue) : M unit :=
     let cp := jlookup (us "custom_properties") kw in
     let kw1 := remove_key (us "custom_properties") kw in
     cpm <- match cp with
@@ -774,7 +781,7 @@ Section Init.
             let assigned := fun k => match jlookup k kw1 with Some v => Some v | None => jlookup k cpm' end in
             let tl_order := dedup_names (tlnames ++ filter (fun k => negb (mem_name k custom_kwargs)) extra)%list in
             let order := (propnames ++ filter (fun k => negb (mem_name k propnames)) tl_order ++ sort_names all_custom)%list in
-            present <- prop_loop (c_kind c) vr defined assigned order [] ;;
+            present <- prop_loop io (c_kind c) vr defined assigned order [] ;;
             if existsb (fun s => s_required s && negb (mem_name (s_name s) present)) defined
             then fail K_MissingPropertiesError
             else
@@ -797,7 +804,7 @@ Section Init.
                             | None => acc end) names kw.
 
   (* a class without a MarkingDefinition-style __init__ (used for the marking types themselves) *)
-  Definition construct0 (c : cls) (ac : bool) (kw : list (ustring * jvalue)) : M unit :=
+  Definition construct0 (c : cls) (ac io : bool) (kw : list (ustring * jvalue)) : M unit :=
     let kw' := fold_left (fun acc p => match p with PreAliases ns => apply_aliases ns acc | _ => acc end) (c_pre c) kw in
     if negb (forallb pre_known (c_pre c)) then (map (fun k => Exc (Known k) S_lib) all_kexn ++ [Val tt])%list
     else
@@ -805,11 +812,15 @@ Section Init.
                 | BObs20 | BObs21 => match jlookup (us "_valid_refs") kw' with Some v => v | None => JArr [] end
                 | _ => JArr [] end in
       let kw'' := match c_kind c with BObs20 | BObs21 => remove_key (us "_valid_refs") kw' | _ => kw' end in
-      base_init c ac kw'' vr ;;;
+      base_init c ac io kw'' vr ;;;
       match c_kind c with
       | BObs21 => if mem_key (us "id") kw' then ret tt else may [K_InvalidValueError; K_ValueError]    (* _generate_id *)
       | _ => ret tt
-      end.
+      end ;;;
+      (* class_for_type(ext, version, "extensions")() : None() is a TypeError, else a construction without arguments *)
+      if negb (c_ver20 c) && existsb (fun p => match p with PreCustom true => true | _ => false end) (c_pre c)
+      then may [K_TypeError; K_InvalidValueError; K_MissingPropertiesError; K_AtLeastOnePropertyError]
+      else ret tt.
 
   (* MarkingDefinition.__init__ (2.0 and 2.1): builds the marking-type object from raw input *)
   Definition marking_pre (dec : decoder) (v20 : bool) (kw : list (ustring * jvalue)) : M unit :=
@@ -832,18 +843,18 @@ Section Init.
                else ret tt) ;;;
               d <- get_dict V dec defn ;;
               match fst d with
-              | JObj dm => call_check dm (snd d) ;;; construct0 mc false dm
+              | JObj dm => call_check dm (snd d) ;;; construct0 mc false false dm
               | _ => fail K_TypeError                            (* marking_type applied to a non-mapping *)
               end
           end
     | _, _ => ret tt
     end.
 
-  Definition construct (dec : decoder) (c : cls) (ac : bool) (kw : list (ustring * jvalue)) : M unit :=
+  Definition construct (dec : decoder) (c : cls) (ac io : bool) (kw : list (ustring * jvalue)) : M unit :=
     match c_pre c with
-    | PreMarkingDef20 :: rest => marking_pre dec true kw ;;; construct0 {| c_key := c_key c; c_ver20 := c_ver20 c; c_kind := c_kind c; c_slots := c_slots c; c_pre := rest; c_cons := c_cons c |} ac kw
-    | PreMarkingDef21 :: rest => marking_pre dec false kw ;;; construct0 {| c_key := c_key c; c_ver20 := c_ver20 c; c_kind := c_kind c; c_slots := c_slots c; c_pre := rest; c_cons := c_cons c |} ac kw
-    | _ => construct0 c ac kw
+    | PreMarkingDef20 :: rest => marking_pre dec true kw ;;; construct0 {| c_key := c_key c; c_ver20 := c_ver20 c; c_kind := c_kind c; c_slots := c_slots c; c_pre := rest; c_cons := c_cons c |} ac io kw
+    | PreMarkingDef21 :: rest => marking_pre dec false kw ;;; construct0 {| c_key := c_key c; c_ver20 := c_ver20 c; c_kind := c_kind c; c_slots := c_slots c; c_pre := rest; c_cons := c_cons c |} ac io kw
+    | _ => construct0 c ac io kw
     end.
 
   (* ------------------------------------------------------------------ *)
@@ -897,7 +908,7 @@ Section Init.
       end
     else ret tt.
 
-  Definition dict_to_stix2 (dec : decoder) (d : jvalue) (nonstr : bool) (ac : bool) (version : option ustring) : M parsed :=
+  Definition dict_to_stix2 (dec : decoder) (d : jvalue) (nonstr : bool) (ac io : bool) (version : option ustring) : M parsed :=
     has <- py_in (us "type") d ;;
     if negb has then fail K_ParseError
     else
@@ -906,7 +917,7 @@ Section Init.
       c1 <- class_for_type R ty ver CatObjects ;;
       c2 <- match c1 with Some c => ret (Some c) | None => class_for_type R ty ver CatObservables end ;;
       match c2, d with
-      | Some c, JObj m => call_check m nonstr ;;; construct dec c ac m ;;; refuse_custom c ac m ;;; ret PObject
+      | Some c, JObj m => call_check m nonstr ;;; construct dec c ac io m ;;; refuse_custom c ac m ;;; ret PObject
       | Some _, _ => fail K_TypeError
       | None, JObj m =>
           if ac then ret PDictAsIs
@@ -918,11 +929,16 @@ Section Init.
       | None, _ => fail K_TypeError
       end.
 
-  Definition parse (dec : decoder) (x : jvalue) (ac : bool) (version : option ustring) : M parsed :=
+  Definition parse (dec : decoder) (x : jvalue) (ac io : bool) (version : option ustring) : M parsed :=
     d <- get_dict V dec x ;;
-    dict_to_stix2 dec (fst d) (snd d) ac version.
+    dict_to_stix2 dec (fst d) (snd d) ac io version.
 
-  Definition parse_observable (dec : decoder) (x : jvalue) (valid_refs : jvalue) (ac : bool) (version : option ustring) : M parsed :=
+  (* parse(file-like object): json.loads(data) is a TypeError, json.load(data) decodes the text read from it *)
+  Definition parse_file (dec : decoder) (tr : textres) (ac io : bool) (version : option ustring) : M parsed :=
+    d <- decode_text V tr ;;
+    dict_to_stix2 dec (fst d) (snd d) ac io version.
+
+  Definition parse_observable (dec : decoder) (x : jvalue) (valid_refs : jvalue) (ac io : bool) (version : option ustring) : M parsed :=
     d <- get_dict V dec x ;;
     has <- py_in (us "type") (fst d) ;;
     if negb has then fail K_ParseError
@@ -934,7 +950,7 @@ Section Init.
           ty <- type_of (JObj m) ;;
           c <- class_for_type R ty ver CatObservables ;;
           match c with
-          | Some c => call_check m (snd d) ;;; construct dec c ac m ;;; refuse_custom c ac m ;;; ret PObject
+          | Some c => call_check m (snd d) ;;; construct dec c ac io m ;;; refuse_custom c ac m ;;; ret PObject
           | None => if ac then ret PDictAsIs else fail K_ParseError
           end
       | _ => fail K_TypeError        (* obj['_valid_refs'] = ... on a str / list *)
@@ -963,7 +979,7 @@ Section Store.
     map (fun r => match r with
                   | Val _ => ((st ++ [x])%list, Added)
                   | Exc e s => (st, Escaped e s)
-                  end) (parse V R clean refuse dec x true version).
+                  end) (parse V R clean refuse dec x true false version).
 
   (* a list of such inputs, left to right; the first escaping exception stops the loop *)
   Fixpoint store_add_list (st : store) (xs : list jvalue) (version : option ustring) : list (store * added) :=
